@@ -13,6 +13,7 @@ package PKG
 
 func vxC40Once(names []string, C int) {
 	P := len(names)
+	vxSchedReset() // native: follow the schedule of the counter-example being replayed, if any
 	c := NewChanges("/r")
 	fetched := make([]string, C)
 	fdone := make([]bool, C)
